@@ -2,6 +2,7 @@
 package main
 
 import (
+	"os"
 	"sync/atomic"
 	"fmt"
 	"go/types"
@@ -191,6 +192,12 @@ func (e *Engine) define(prefix, sort, term string) string {
 func (e *Engine) assume(term string) {
 	if term == "" || term == "true" {
 		return
+	}
+	if e.condAssume && os.Getenv("GOVC_NOCOND") == "" && e.curPC != "" && e.curPC != "true" && !strings.HasPrefix(term, "(forall") {
+		// inside a native model: what it says about its results presupposes arguments in range, which holds on the path that
+		// (quantified facts define fresh arrays pointwise and stay global: they are consistent for any arguments)
+		// executes the call only (on other paths the argument terms are junk and the fact could be contradictory)
+		term = fmt.Sprintf("(=> %s %s)", e.curPC, term)
 	}
 	e.facts = append(e.facts, Fact{Term: term})
 }
@@ -600,7 +607,7 @@ func (e *Engine) water() string {
 // bumpWater introduces a new watermark after code that may have allocated (a call, earlier loop iterations).
 func (e *Engine) bumpWater(prefix string) string {
 	m := e.fresh(prefix+".mark", "Int")
-	e.assume(fmt.Sprintf("(and (>= %s %s) (>= %s pre))", m, e.water(), m))
+	e.assumeGlobal(fmt.Sprintf("(and (>= %s %s) (>= %s pre))", m, e.water(), m))
 	e.lastAlloc = m
 	return m
 }
